@@ -66,14 +66,16 @@ def record_layout(f, a=None):
     return None
 
 
-def roundtrip(a, hybrid36=False, extra=(), expect_refused=False):
+def roundtrip(a, hybrid36=False, extra=(), expect_refused=False, must_accept=False):
     f = pdb.PDBFile()
     try:
         with warnings.catch_warnings():
             warnings.simplefilter("ignore")
             f.set_structure(a, hybrid36=hybrid36)
     except (struc.BadStructureError, ValueError) as e:
-        return None        # refused with an error: always allowed
+        if must_accept:
+            return f"a structure that fits every column was refused: {type(e).__name__}: {e}"
+        return None        # refused with an error: allowed for input that exceeds a column
     lay = record_layout(f, a)
     if lay:
         return lay
@@ -108,37 +110,37 @@ for v in COORDS:
         c[1][axis] = v
         lim = (-999.9995 < v < 9999.9995)
         R.check("coordinate column: round trip within 0.001 or refused, never shifted", f"coord {'in' if lim else 'out of'} range axis {axis}",
-                {"coord": c}, lambda c=c: roundtrip(make(coord=c)))
+                {"coord": c}, lambda c=c, lim=lim: roundtrip(make(coord=c), must_accept=lim))
 for v in [0.0, 1.0, 99.99, 999.99, 999.994, 999.996, -99.99, -99.996, 1000.0, float("nan")]:
-    R.check("B-factor column", f"b_factor {v}", {"b_factor": [1.0, v]}, lambda v=v: roundtrip(make(b_factor=[1.0, v]), extra=["b_factor"]))
-    R.check("occupancy column", f"occupancy {v}", {"occupancy": [1.0, v]}, lambda v=v: roundtrip(make(occupancy=[1.0, v]), extra=["occupancy"]))
+    R.check("B-factor column", f"b_factor {v}", {"b_factor": [1.0, v]}, lambda v=v: roundtrip(make(b_factor=[1.0, v]), extra=["b_factor"], must_accept=(v == v and -99.99 <= v <= 999.99)))
+    R.check("occupancy column", f"occupancy {v}", {"occupancy": [1.0, v]}, lambda v=v: roundtrip(make(occupancy=[1.0, v]), extra=["occupancy"], must_accept=(v == v and -99.99 <= v <= 999.99)))
 for v in [0, 1, -1, 9, -9, 10, -10]:
-    R.check("charge column", f"charge {v}", {"charge": [0, v]}, lambda v=v: roundtrip(make(charge=[0, v]), extra=["charge"]))
+    R.check("charge column", f"charge {v}", {"charge": [0, v]}, lambda v=v: roundtrip(make(charge=[0, v]), extra=["charge"], must_accept=abs(v) <= 9))
 for ids in [[1, 2], [0, 1], [-1, 0], [99998, 99999], [99999, 100000], [5, 3]]:
     R.check("atom id column", f"atom_id {ids} decimal", {"atom_id": ids},
             lambda ids=ids: (lambda r: r if (r is None or max(ids) > 99999) else r)(
-                None if max(ids) > 99999 else roundtrip(make(atom_id=ids), extra=["atom_id"])))
+                None if max(ids) > 99999 else roundtrip(make(atom_id=ids), extra=["atom_id"], must_accept=True)))
 for ids in [[1, 2], [99999, 100000], [100000, 100001], [1223055, 1223056], [43770015, 43770016], [87440031, 87440032]]:
     R.check("atom id column hybrid-36", f"atom_id {ids} hybrid36", {"atom_id": ids, "hybrid36": True},
-            lambda ids=ids: roundtrip(make(atom_id=ids), hybrid36=True, extra=["atom_id"]))
+            lambda ids=ids: roundtrip(make(atom_id=ids), hybrid36=True, extra=["atom_id"], must_accept=max(ids) <= 87440031))
 for rid in [[1, 2], [-1, 0], [-999, 9999], [9999, 10000], [10000, 10001]]:
     R.check("residue id column", f"res_id {rid} decimal (wraps above 9999)", {"res_id": rid},
-            lambda rid=rid: None if max(rid) > 9999 else roundtrip(make(res_id=rid)))
+            lambda rid=rid: None if max(rid) > 9999 else roundtrip(make(res_id=rid), must_accept=True))
     R.check("residue id column hybrid-36", f"res_id {rid} hybrid36", {"res_id": rid, "hybrid36": True},
-            lambda rid=rid: roundtrip(make(res_id=rid), hybrid36=True))
+            lambda rid=rid: roundtrip(make(res_id=rid), hybrid36=True, must_accept=min(rid) >= 0 and max(rid) <= 2436111))
 for names in [["N", "CA"], ["HD11", "C"], ["CA", "HD11"], ["ABCDE", "C"]]:
-    R.check("atom name column", f"atom_name {names}", {"atom_name": names}, lambda names=names: roundtrip(make(atom_name=names)))
+    R.check("atom name column", f"atom_name {names}", {"atom_name": names}, lambda names=names: roundtrip(make(atom_name=names), must_accept=max(map(len, names)) <= 4))
 for rn in [["GLY", "A"], ["ABCD", "GLY"], ["ABCDEF", "GLY"]]:
-    R.check("residue name column", f"res_name {rn}", {"res_name": rn}, lambda rn=rn: roundtrip(make(res_name=rn)))
+    R.check("residue name column", f"res_name {rn}", {"res_name": rn}, lambda rn=rn: roundtrip(make(res_name=rn), must_accept=max(map(len, rn)) <= 3))
 for ch in [["A", "B"], ["AB", "A"], ["ABCDE", "A"]]:
-    R.check("chain id column", f"chain_id {ch}", {"chain_id": ch}, lambda ch=ch: roundtrip(make(chain_id=ch)))
+    R.check("chain id column", f"chain_id {ch}", {"chain_id": ch}, lambda ch=ch: roundtrip(make(chain_id=ch), must_accept=max(map(len, ch)) <= 1))
 for ic in [["", "A"], ["A", "B"], ["AB", ""]]:
-    R.check("insertion code column", f"ins_code {ic}", {"ins_code": ic}, lambda ic=ic: roundtrip(make(ins_code=ic)))
+    R.check("insertion code column", f"ins_code {ic}", {"ins_code": ic}, lambda ic=ic: roundtrip(make(ins_code=ic), must_accept=max(map(len, ic)) <= 1))
 for het in [[False, True], [True, True]]:
-    R.check("record name", f"hetero {het}", {"hetero": het}, lambda het=het: roundtrip(make(hetero=het)))
+    R.check("record name", f"hetero {het}", {"hetero": het}, lambda het=het: roundtrip(make(hetero=het), must_accept=True))
 # stacks: every model comes back
 st = make(n=2, models=2, coord=[[[0, 0, 0], [1, 1, 1]], [[2, 2, 2], [3.5, -3.5, 0.125]]])
-R.check("every model round-trips", "stack of 2 models", {"models": 2}, lambda: roundtrip(st))
+R.check("every model round-trips", "stack of 2 models", {"models": 2}, lambda: roundtrip(st, must_accept=True))
 for m in (1, 2, -1):
     def one_model(m=m):
         f = pdb.PDBFile()
